@@ -14,7 +14,9 @@ func init() {
 	vrt.Register("VerifC13_Thrift", VerifC13_Thrift)
 }
 
-var verifDoubles = []float64{0, math.Copysign(0, -1), 1.5, -2.25, 1e300, 5e-324, 1.7976931348623157e308, 0.1, 123456789.125, 1e21, 1e-7}
+var verifDoubles = []float64{0, math.Copysign(0, -1), 1.5, -2.25, 1e300, 5e-324, 1.7976931348623157e308, 0.1, 123456789.125, 1e21, 1e-7,
+	// integral values around the int64 / exponent-format boundaries
+	9223372036854775808, -9223372036854775808, 1e19, -1e20, 9007199254740992, 9007199254740994, 1e15, 3, -7, 1e20, 999999999999999900000}
 
 // VerifC13_Thrift: a conforming message without unknown fields converted to JSON and back reproduces
 // the message byte for byte (matching option pairs); the JSON produced from the result denotes the same value.
@@ -137,7 +139,12 @@ func VerifC13_Thrift() {
 		return
 	}
 	vrt.Reach("roundtrip")
-	vrt.Assert(vrt.BytesEq(back, 0, len(back), orig, 0, len(orig)), "C13.thrift-json-thrift.identical")
+	// the label names the scenario, so that the recorded finding about -0.0 cannot hide another value
+	idLabel := "C13.thrift-json-thrift.identical"
+	if f == 6 && vrt.Param("DV")%len(verifDoubles) == 1 {
+		idLabel = "C13.thrift-json-thrift.identical.negative-zero"
+	}
+	vrt.Assert(vrt.BytesEq(back, 0, len(back), orig, 0, len(orig)), idLabel)
 	// and once more: the JSON produced from the result equals the first JSON (same value denoted)
 	js2, err := tc.Do(context.Background(), desc, back)
 	vrt.Assert(err == nil && vrt.BytesEq(js2, 0, len(js2), js, 0, len(js)), "C13.json-thrift-json.same")
